@@ -376,7 +376,7 @@ def history(rng, cfg, nops=14):
         elif k < 0.92:
             s = rng.randrange(ns)
             ident = rng.choice([0, 1, 1, 2, 3, 255, rng.randrange(256)])
-            code = rng.choice([2, 2, 3, 11, 5, 5, 1, 12])
+            code = rng.choice([2, 2, 3, 11, 5, 5, 1, 12, rng.choice([0, 6, 13, 14, 20, 39, 40, 41, 44, 46, 255, rng.randrange(256)])])
             flags = rng.choice(['-', '-', '-', '-', 'badauth', 'badma', 'wrongsecret', 'prefixsecret'])
             ops.append('op sreply %d %d %d %s %d %s %s' % (s, ident, now, rnd, code, flags, ' '.join(reply_attrs(rng, cfg, s))))
         elif k < 0.95:
